@@ -23,7 +23,7 @@ def load(path, name):
 a, b = load(lib / "mod.py", "lib_mod"), load(user / "mod.py", "user_mod")
 assert a.f.__code__ == b.f.__code__ and a.f.__code__ is not b.f.__code__
 config.LIB_PATHS = config.LIB_PATHS + (tmp / "lib",)   # pretend <tmp>/lib is a library root
-config.default_code_filter.cache_clear()
+getattr(config.default_code_filter, "cache_clear", lambda: None)()
 first = config.default_code_filter(a.f.__code__)       # library copy first
 second = config.default_code_filter(b.f.__code__)      # user copy: must be admitted
 print("library copy admitted:", first, "| user copy admitted:", second)
